@@ -11,6 +11,7 @@ import (
 	"log"
 	"math"
 	"os"
+	"os/exec"
 	"runtime"
 
 	"github.com/evolbioinfo/goalign/align"
@@ -506,9 +507,76 @@ func ownRenders(what string) []func() string {
 	return rs
 }
 
+// firstUse: state that is built lazily at first use is only raced for by the FIRST concurrent use in a process.
+// "first" runs this binary again, once per operation, as a fresh process whose very first library call is that
+// operation done by several workers at once ("first:<op>"); the children's reports are relayed.
+var firstOps = []string{"dist-k2p", "dist-f84", "dist-tn93", "dist-jc", "dist-f81", "dist-pdist", "dist-rawdist", "phase", "gamma", "model-gtr", "model-lg"}
+
+func firstUse(op string) {
+	big := make([]string, 8)
+	for i := range big {
+		big[i] = fmt.Sprintf("%c%c%cACRY-N", "ACGT"[i%4], "ACGT"[(i/4)%4], "ACGT"[(i/2)%4])
+	}
+	switch {
+	case strings.HasPrefix(op, "dist-"):
+		m, _ := dna.Model(strings.TrimPrefix(op, "dist-"), false)
+		dna.DistMatrix(mkAlign(big), nil, m, -1, -1, -1, -1, false, 0, 4)
+	case op == "phase":
+		phaseBodies(1)
+	case op == "gamma":
+		var wg sync.WaitGroup
+		for w := 0; w < 4; w++ {
+			wg.Add(1)
+			go func(w int) {
+				defer wg.Done()
+				models.DiscreteGamma(0.5+float64(w), 4)
+			}(w)
+		}
+		wg.Wait()
+	case strings.HasPrefix(op, "model-"):
+		var wg sync.WaitGroup
+		for w := 0; w < 4; w++ {
+			wg.Add(1)
+			go func(w int) {
+				defer wg.Done()
+				if op == "model-gtr" {
+					m := mdna.NewGTRModel()
+					m.InitModel(1, 2, 1.5, 0.5, 3, 1, .1, .2, .3, .4)
+					models.NewPij(m, 0.1*float64(w+1))
+				} else {
+					m, _ := mprot.NewProtModel(mprot.MODEL_LG, false, 0)
+					m.InitModel(nil)
+					models.NewPij(m, 0.1*float64(w+1))
+				}
+			}(w)
+		}
+		wg.Wait()
+	}
+}
+
 func main() {
 	log.SetOutput(io.Discard)
 	what := os.Args[1]
+	if strings.HasPrefix(what, "first:") {
+		runtime.GOMAXPROCS(4)
+		firstUse(strings.TrimPrefix(what, "first:"))
+		return
+	}
+	if strings.HasPrefix(what, "first/") {
+		for _, op := range firstOps {
+			if !strings.HasPrefix(op, strings.TrimPrefix(what, "first/")) {
+				continue
+			}
+			for r := 0; r < 3; r++ {
+				cmd := exec.Command(os.Args[0], "first:"+op)
+				cmd.Env = os.Environ()
+				out, _ := cmd.CombinedOutput()
+				os.Stdout.Write(out)
+			}
+		}
+		fmt.Println("RACEPASS-DONE")
+		return
+	}
 	reps := 5
 	for _, p := range []int{1, 2, 4, 16} {
 		runtime.GOMAXPROCS(p)
